@@ -271,6 +271,8 @@ pub fn long_case(two_point: bool, f: Flavour, l: usize, max_dev: usize) -> (u64,
     let mut viols: Vec<(String, String)> = vec![];
     let mut from1 = vec![false; l];
     let mut from2 = vec![false; l];
+    // differ[i * l + j]: some child takes positions i and j from different parents
+    let mut differ = vec![false; if two_point { 0 } else { l * l }];
     let mut segs: BTreeSet<(usize, usize)> = BTreeSet::new();
     let mut judge = |o: XoObs, viols: &mut Vec<(String, String)>| {
         let what = match &o {
@@ -288,6 +290,15 @@ pub fn long_case(two_point: bool, f: Flavour, l: usize, max_dev: usize) -> (u64,
                             from1[i] = true;
                         } else {
                             from2[i] = true;
+                        }
+                    }
+                    if !two_point {
+                        for i in 0..l {
+                            for j in i + 1..l {
+                                if c[i] != c[j] {
+                                    differ[i * l + j] = true;
+                                }
+                            }
                         }
                     }
                     if two_point {
@@ -313,7 +324,7 @@ pub fn long_case(two_point: bool, f: Flavour, l: usize, max_dev: usize) -> (u64,
     let st = if two_point {
         explore(|env| recombine(true, f, l, l, env, Alphabet::Grid(l as u32 + 1)), |_, _, o| judge(o, &mut viols), 5_000_000)
     } else {
-        explore_bounded(|env| recombine(false, f, l, l, env, Alphabet::Ext(2)), |_, o| judge(o, &mut viols), max_dev, 5_000_000)
+        explore_bounded(|env| recombine(false, f, l, l, env, Alphabet::Bits), |_, o| judge(o, &mut viols), max_dev, 5_000_000)
     };
     if st.capped {
         viols.push(("machinery/cap".into(), format!("{label}: capped")));
@@ -325,6 +336,12 @@ pub fn long_case(two_point: bool, f: Flavour, l: usize, max_dev: usize) -> (u64,
             viols.push((
                 format!("{name}/long-support"),
                 format!("{label}: over all explored streams positions {never1:?} never come from the first parent and positions {never2:?} never from the second"),
+            ));
+        } else if !two_point && (0..l).any(|i| (i + 1..l).any(|j| !differ[i * l + j])) {
+            let tied: Vec<(usize, usize)> = (0..l).flat_map(|i| (i + 1..l).map(move |j| (i, j))).filter(|(i, j)| !differ[i * l + j]).collect();
+            viols.push((
+                format!("{name}/long-independence"),
+                format!("{label}: over all explored streams {} pairs of positions always come from the same parent, e.g. {:?} -- these positions are not decided independently", tied.len(), &tied[..tied.len().min(4)]),
             ));
         } else if two_point {
             let missing: Vec<(usize, usize)> = (0..=l).flat_map(|a| (a..=l).map(move |b| (a, b))).filter(|(a, b)| !segs.contains(&if a == b { (0, 0) } else { (*a, *b) })).collect();
@@ -469,7 +486,7 @@ pub fn run(run: &mut Run) {
     run.states = cases.len() as u64 + p;
     run.traces_validated = run.evaluations;
     run.distinct_nontrivial = nontrivial;
-    run.rule = "TwoPointXo and UniformXo in 6 flavours ([Vec;2], (Vec,Vec), [Bitstring;2], (Bitstring,Bitstring), through Recombine, behind &) x all length pairs 0..L x all grid word sequences on tagged parents (and, lengths <= 4, all sequences over the grid plus the extreme words 0 and all-ones, per-leaf oracle only); per leaf: error iff lengths differ, child gene i from a parent's position i, one contiguous segment (two-point); over all leaves: every segment [a,b) reachable, uniform mask law exactly 2^-l; plus long genomes (around 64 and 128 genes): two-point with both cut points enumerated, uniform under every stream with at most 1 (thorough 2) non-default words, per-leaf oracle + every position seen from either parent + every segment; plus crossover_gene / crossover_segment for all indices / ranges up to length+2 on all length pairs 0..4. non-trivial = scenarios with more than one distinct child".into();
+    run.rule = "TwoPointXo and UniformXo in 6 flavours ([Vec;2], (Vec,Vec), [Bitstring;2], (Bitstring,Bitstring), through Recombine, behind &) x all length pairs 0..L x all grid word sequences on tagged parents (and, lengths <= 4, all sequences over the grid plus the extreme words 0 and all-ones, per-leaf oracle only); per leaf: error iff lengths differ, child gene i from a parent's position i, one contiguous segment (two-point); over all leaves: every segment [a,b) reachable, uniform mask law exactly 2^-l; plus long genomes (around 64 and 128 genes): two-point with both cut points enumerated, uniform under every stream with at most 1 (thorough 2) non-default words, per-leaf oracle + every position seen from either parent + every pair of positions seen from different parents (independence) + every segment; plus crossover_gene / crossover_segment for all indices / ranges up to length+2 on all length pairs 0..4. non-trivial = scenarios with more than one distinct child".into();
     run.bound("max_length", json!(max_l));
     run.bound("alphabet", json!("Grid(l*(l+1)) for two-point, Grid(2) for uniform"));
     run.assumptions = vec!["Grid(l(l+1)) is exact for cut points drawn from 0..l as well as from 0..=l".into()];
